@@ -5,17 +5,15 @@ import FranzVerif.Spec.C36
 The op grammar is the header comment of harness/cmd/c36/main.go. The model output is the executable
 model of pkg/sr (Model.C36); the verdict is the Spec (Spec.C36) evaluated on the implementation's output.
 
-`make([]int, l)`: the harness child runs with a 4 GiB address space, so `l ≤ 2^20` certainly allocates and
-`l > 2^29` certainly does not (abort or `makeslice: len out of range`); the model is run with both bounds and
-prints `*` (no comparison) when they differ.
+Since /repo a468db8 `DecodeIndex` caps its allocation by the remaining input, so every count is compared (no
+uncompared band). The harness still runs the ops in a child with a 4 GiB address space; if a panic, a kill (`panic`) or
+a deadline overrun (`hang`) ever shows up for `decidx` again it gets the stable key of the repaired defect when
+`maxLength ≤ 0`, and `decodeindex-panic` otherwise.
 
 Verdict keys: `decodeindex-panic-nonpositive-maxlength` (DecodeIndex panics/aborts with maxLength ≤ 0),
 `decodeindex-panic`, `decodeindex-wrong`, `decodeid`, `header-encode`, `header-roundtrip`, `serde-encode`,
 `serde-decode`, `serde-decode-panic`, `serde-roundtrip`. -/
 open Driver Model.C36
-
-def aLo : Nat := 1048576
-def aHi : Nat := 536870912
 
 structure St where
   reg : Reg := {}
@@ -71,13 +69,13 @@ def validId (id : Int) : Bool := decide (0 ≤ id ∧ id < 4294967296)
 def us (s : String) : String := s.replace " " "_"
 
 /-- model of the `hrt` op of the harness -/
-def hrtModel (A : Nat) (id : Int) (ix : List Int) (pay : Bytes) (m : Int) : Out (Int × List Int × Bytes) :=
+def hrtModel (id : Int) (ix : List Int) (pay : Bytes) (m : Int) : Out (Int × List Int × Bytes) :=
   match decodeID (appendEncode [] id ix ++ pay) with
   | .err e => .err e
   | .panic => .panic
   | .ok (id', rest) =>
     if ix.isEmpty then .ok (id', [], rest) else
-    match decodeIndex A rest m with
+    match decodeIndex rest m with
     | .err e => .err e
     | .panic => .panic
     | .ok (ix', rest') => .ok (id', ix', rest')
@@ -111,19 +109,14 @@ def step (st : St) (line : String) : St × String :=
   | ["decidx", b, mx] =>
     match parseHex? b, mx.toInt? with
     | some b, some mx =>
-      let m := decodeIndex aLo b mx
-      let m2 := decodeIndex aHi b mx
-      let ms := if m == m2 then outStr (fun (p : List Int × Bytes) => s!"{idxStr p.1} {toHex p.2}") m else "*"
-      -- `hang` (deadline exceeded while allocating) is judged like a panic: the count is what the Spec reads from the input
-      let big := match Spec.C36.parseVarint b with | some (l, _) => decide (l > (aLo : Int)) | none => false
-      let io := if it == ["hang"] && big then some Out.panic else parseOut? pIdxRest it
+      let m := decodeIndex b mx
+      let ms := outStr (fun (p : List Int × Bytes) => s!"{idxStr p.1} {toHex p.2}") m
+      let io := if it == ["hang"] then some Out.panic else parseOut? pIdxRest it
       let v := match io with
         | some o =>
           if Spec.C36.decodeIndexAllowed b mx o then "1"
           else if o == Out.panic then
-            (if mx ≤ 0 then "0:decodeindex-panic-nonpositive-maxlength"
-             else if mx > (aLo : Int) then "-"     -- the caller allowed more entries than can be allocated: outside the Spec's assumption
-             else "0:decodeindex-panic")
+            (if mx ≤ 0 then "0:decodeindex-panic-nonpositive-maxlength" else "0:decodeindex-panic")
           else "0:decodeindex-wrong"
         | none => "0:decodeindex-wrong"
       (st, s!"{ms} | {v} | {boolStr (!b.isEmpty)}")
@@ -131,7 +124,7 @@ def step (st : St) (line : String) : St × String :=
   | ["hrt", id, ix, pay, mx] =>
     match id.toInt?, parseIdx? ix, parseHex? pay, mx.toInt? with
     | some id, some ix, some pay, some mx =>
-      let m := hrtModel aLo id ix pay mx
+      let m := hrtModel id ix pay mx
       let v := if !validId id then "-" else
         match parseOut? pIdIdxRest it with
         | some (.ok (id', ix', rest)) =>
@@ -161,7 +154,7 @@ def step (st : St) (line : String) : St × String :=
   | ["sdec", b] =>
     match parseHex? b with
     | some b =>
-      let m := decodeFind aLo st.reg b
+      let m := decodeFind st.reg b
       let v := match parseOut? pTagTyRest it with
         | some .panic => "0:serde-decode-panic"
         | some o =>
@@ -174,7 +167,7 @@ def step (st : St) (line : String) : St × String :=
     | some ty, some pay =>
       let e := encode st.reg [] ty pay
       let ms := match e with
-        | .ok bytes => s!"enc={toHex bytes} dec={us (decStr (decodeFind aLo st.reg bytes))}"
+        | .ok bytes => s!"enc={toHex bytes} dec={us (decStr (decodeFind st.reg bytes))}"
         | .err k => s!"enc=err_{errStr k} dec=-"
         | .panic => "enc=panic dec=-"
       let okv := st.hist.all Spec.C36.validOp
